@@ -95,6 +95,53 @@ type vkSrvWorld struct {
 	dir  string
 	udp  *net.UDPConn
 	spec vkSrvCfg
+
+	// The owned transports recycle their job slabs (and the per-request slots inside them)
+	// from one client's query to the next; the harness does the same: ONE udp slab taken from
+	// and released to a real engine's cache, one tcp job per size class.
+	ue      *udpEngine
+	te      *tcpEngine
+	tcpJobs map[bool]*tcpJob
+	// primer, when set, is served on the same slab from another client immediately before
+	// every strict / inline serve (its reply is discarded): whatever per-request state the
+	// slab keeps must not reach the next client's reply.
+	primer []byte
+}
+
+var vkPrimerClient = netip.MustParseAddrPort("203.0.113.9:5353")
+
+// vkPrimerPkt is a strict-path-eligible EDNS query (DO, AD, large size, NSID request) with a cookie distinct
+// from the alphabet's.
+func vkPrimerPkt() []byte {
+	p := vkBasePkt("hit.t.", dns.TypeA)
+	p.ID = 0x7e57
+	p.AD = true
+	p.OPT, p.DO, p.Size = true, true, 4096
+	p.Options = []string{"cookie8b", "nsid"}
+	return p.build()
+}
+
+func (w *vkSrvWorld) udpSlab() *udpJob {
+	if w.ue == nil {
+		w.ue = newUDPEngine(w.s, []*net.UDPConn{w.udp}, false, 1, 64, resourcePlan{})
+		w.ue.slabCap = 1
+	}
+	j := w.ue.take(0)
+	if j == nil {
+		panic("vk: the harness's single UDP slab is still leased")
+	}
+	return j
+}
+
+func (w *vkSrvWorld) tcpSlab(large bool) *tcpJob {
+	if w.te == nil {
+		w.te = &tcpEngine{handler: w.s}
+		w.tcpJobs = map[bool]*tcpJob{}
+	}
+	if w.tcpJobs[large] == nil {
+		w.tcpJobs[large] = newTCPJob(w.te, large)
+	}
+	return w.tcpJobs[large]
 }
 
 func vkNewSrvWorld(spec vkSrvCfg) *vkSrvWorld {
@@ -275,31 +322,49 @@ func (w *vkSrvWorld) serve(path vkPath, proto string, client netip.AddrPort, raw
 			res.replies = pl.out
 			break
 		}
-		j := &udpJob{pc: w.udp}
-		j.setRemote(client)
-		j.rxLen = copy(j.rx[:], raw)
-		j.readTime = now
-		j.burst = &udpTXBurst{}
-		j.state = udpJobServing
-		switch verdict {
-		case acceptIgnore:
-		case acceptNotImplemented, acceptFormatError:
-			j.rejectInPlace(verdict)
-		default:
-			if path == vkPathInline {
-				if !w.s.ServeRawInline(j, j.rx[:j.rxLen], now) && j.txLen == 0 {
-					res.handoff = true
-					if !w.s.ServeRawReplay(j, j.rx[:j.rxLen], now) {
-						j.rejectInPlace(acceptFormatError)
-					}
-				}
-			} else if !w.s.ServeRaw(j, j.rx[:j.rxLen], now) {
-				j.rejectInPlace(acceptFormatError)
+		run := func(cl netip.AddrPort, pkt []byte) (tx [][]byte, handoff bool) {
+			j := w.udpSlab()
+			j.transition(udpJobFree, udpJobReading)
+			j.pc = w.udp
+			j.setRemote(cl)
+			j.rxLen = copy(j.rx[:], pkt)
+			j.readTime = now
+			w.ue.inFlight.Add(1)
+			j.transition(udpJobReading, udpJobServing)
+			j.burst = &udpTXBurst{}
+			h, hok := wire.ParseHeader(pkt)
+			v := acceptIgnore
+			if hok {
+				v = acceptHeader(h)
 			}
+			switch v {
+			case acceptIgnore:
+			case acceptNotImplemented, acceptFormatError:
+				j.rejectInPlace(v)
+			default:
+				if path == vkPathInline {
+					if !w.s.ServeRawInline(j, j.rx[:j.rxLen], now) && j.txLen == 0 {
+						handoff = true
+						if !w.s.ServeRawReplay(j, j.rx[:j.rxLen], now) {
+							j.rejectInPlace(acceptFormatError)
+						}
+					}
+				} else if !w.s.ServeRaw(j, j.rx[:j.rxLen], now) {
+					j.rejectInPlace(acceptFormatError)
+				}
+			}
+			if j.txLen > 0 {
+				tx = [][]byte{append([]byte(nil), j.tx[:j.txLen]...)}
+			}
+			j.burst = nil
+			j.release(udpJobServing) // the engine's own scrub between two clients
+			return tx, handoff
 		}
-		if j.txLen > 0 {
-			res.replies = [][]byte{append([]byte(nil), j.tx[:j.txLen]...)}
+		if w.primer != nil {
+			run(vkPrimerClient, w.primer)
 		}
+		_ = verdict
+		res.replies, res.handoff = run(client, raw)
 	case proto == "tcp":
 		conn := &vkConn{remote: vkAddr(proto, client), local: vkAddr(proto, netip.MustParseAddrPort("127.0.0.1:53"))}
 		if path == vkPathDecoded {
@@ -320,18 +385,28 @@ func (w *vkSrvWorld) serve(path vkPath, proto string, client netip.AddrPort, raw
 			res.replies = pl.out
 			break
 		}
-		e := &tcpEngine{handler: w.s}
-		j := newTCPJob(e, largeClass(len(raw)))
-		if len(raw) > len(j.rx) {
+		runTCP := func(cn *vkConn, pkt []byte) bool {
+			j := w.tcpSlab(largeClass(len(pkt)))
+			if len(pkt) > len(j.rx) {
+				return false
+			}
+			// exactly what serveConn sets per frame
+			j.conn = cn
+			j.stream = &tcpStream{}
+			j.stream.reset(cn)
+			j.written = false
+			j.readTime = now
+			copy(j.rx, pkt)
+			w.te.serveFrame(j, len(pkt))
+			_ = j.stream.flush()
+			return true
+		}
+		if w.primer != nil {
+			runTCP(&vkConn{remote: vkAddr(proto, vkPrimerClient), local: conn.local}, w.primer)
+		}
+		if !runTCP(conn, raw) {
 			break
 		}
-		j.conn = conn
-		j.stream = &tcpStream{}
-		j.stream.reset(conn)
-		j.readTime = now
-		copy(j.rx, raw)
-		e.serveFrame(j, len(raw))
-		_ = j.stream.flush()
 		// split the captured stream into frames
 		b := conn.wr.Bytes()
 		for len(b) >= dnsclient.FramePrefixLen {
